@@ -127,7 +127,7 @@ def _work(task):
     stack = list(prefixes)
     out = {"cfg": cfg_idx, "n": 0, "viol": [], "status": {}, "maxdepth": 0, "maxdev": 0, "nontriv_n": 0,
            "samples": [], "replayed": 0, "validated": 0, "skipped": 0, "ties": 0, "unowned": 0,
-           "flags": {}, "counters": {}, "known": {}}
+           "flags": {}, "counters": {}, "known": {}, "exc": {}}
     n = 0
     try:
         while stack and n < CHUNK:
@@ -153,6 +153,13 @@ def _work(task):
             out["status"][res.status] = out["status"].get(res.status, 0) + 1
             for f in res.flags:
                 out["flags"][f] = out["flags"].get(f, 0) + 1
+            if res.exception is not None:
+                tb = res.exception[2].strip().splitlines()
+                where = next((l.strip() for l in reversed(tb) if l.strip().startswith("File")), "")
+                key = "%s: %s @ %s" % (res.exception[0], res.exception[1][:80], where.split(", in ")[-1])
+                e = out["exc"].setdefault(key, {"n": 0, "cfg": cfg.get("name"), "choices": list(ch), "cfgs": set()})
+                e["n"] += 1
+                e["cfgs"].add(cfg.get("name"))
             if res.ties:
                 out["ties"] += 1
             if res.unowned:
@@ -223,7 +230,7 @@ def explore(spec, cfgs, seed=0, account=True, log=None):
     tot = {"evaluations": 0, "states": set(), "transitions": set(), "obs": set(), "nontrivial": set(),
            "endstates": set(), "viol": [], "status": {}, "maxdepth": 0, "maxdev": 0, "nontriv_n": 0,
            "samples": [], "replayed": 0, "validated": 0, "ties": 0, "unowned": 0, "flags": {},
-           "per_cfg": [0] * len(cfgs), "capped": [], "harness_errors": [], "counters": {}, "known": {}}
+           "per_cfg": [0] * len(cfgs), "capped": [], "harness_errors": [], "counters": {}, "known": {}, "exc": {}}
     ctx = mp.get_context("fork")
     pending = 0
     results = []
@@ -274,6 +281,10 @@ def explore(spec, cfgs, seed=0, account=True, log=None):
                     tot["flags"][k] = tot["flags"].get(k, 0) + v
                 for k, v in r["counters"].items():
                     tot["counters"][k] = tot["counters"].get(k, 0) + v
+                for k, v in r.get("exc", {}).items():
+                    e = tot["exc"].setdefault(k, {"n": 0, "cfg": v["cfg"], "choices": v["choices"], "cfgs": set()})
+                    e["n"] += v["n"]
+                    e["cfgs"] |= v["cfgs"]
                 for k, v in r.get("known", {}).items():
                     kk = tot["known"].setdefault(k, {"n": 0, "what": v["what"]})
                     kk["n"] += v["n"]
